@@ -29,7 +29,7 @@ from vf.props.common import harness_error, inconclusive, proved, violation
 ID = "C09"
 LEVEL = "model_checking"
 ITEM_BUDGET_S = {"quick": 500, "thorough": 1800}
-QT = {"quick": 15000, "thorough": 60000}
+QT = {"quick": 15000, "thorough": 30000}
 _TIER = "quick"
 NLM = ["auto", "SLSQP", "trust-constr", "L-BFGS-B"]
 HESS = {"trust-constr"}
@@ -38,8 +38,8 @@ BOUNDS_OK = {"L-BFGS-B", "SLSQP", "trust-constr"}
 META = dict(
     rule="one case = (model, method, obligation, path of the argument-building code) + (model, method, reply path) for the mapping obligation",
     bounds={
-        "quick": "26 models x 4 methods; all data (coefficients, rhs, bounds, parameter values) symbolic; x symbolic; path budget 2500 for the reply mapping",
-        "thorough": "adds n=3 / symmetric-matrix models, path budget 20000",
+        "quick": "33 models x 4 methods (+ 3 edit histories x 2 methods on every other model); all data (coefficients, rhs, bounds, parameter values) symbolic; x symbolic; path budget 1200 for the reply mapping",
+        "thorough": "adds n=3 / symmetric-matrix models, path budget 10000",
     },
     outside=["numerical trajectory / convergence of SLSQP, trust-constr, L-BFGS-B (FFI)", "user-supplied x0/tol/maxiter", "rounding (S7)"],
     assumptions=["S4", "S1", "S2", "S3", "S6", "S7"],
@@ -130,7 +130,7 @@ def map_obligations(model, method):
     allv = names["vars"] + names["syms"] + names["params"]
     val = K.sym_val(allv)
     tag = f"{model['tag']}/{method}"
-    budget = 2500 if _TIER == "quick" else 20000
+    budget = 1200 if _TIER == "quick" else 10000
     allmodel = allv + [f"m{k}_x{i}" for k in (1, 2, 3) for i in range(12)]
     for dec, labels, pc, o in K.explore(lambda: SV.solve_observe(model, val, method), max_paths=budget):
         if o.exc is not None or not o.mcalls or o.lcalls:
@@ -245,10 +245,11 @@ def replay(payload):
             if msg:
                 return True, msg
             continue
-        if payload["kind"] == "raises":
+        structural_bounds = payload["kind"] == "raises" and "bound" in payload.get("what", "")
+        if payload["kind"] == "raises" and not structural_bounds:
             return True, "structural difference (see what)"
         s = 1.0 if model["sense"] == "min" else -1.0
-        for _ in range(10):
+        for _ in range(0 if structural_bounds else 10):
             pt = dict(val)
             for n in names["vars"]:
                 pt[n] = vals.get(n, 0.5) if (_ == 0 and attempt == 0) else rng.uniform(0.3, 1.7)
